@@ -3229,7 +3229,15 @@ class Generator:
                         resolved = self._resolve_ordered_for_null_ordering_simulation(expression)
                         target = self.sql(resolved) if resolved is not None else this
                         null_sort_order = " DESC" if nulls_sort_change == " NULLS FIRST" else ""
-                        this = f"CASE WHEN {target} IS NULL THEN 1 ELSE 0 END{null_sort_order}, {target}"
+
+                        # IS NULL binds tighter than NOT, AND, OR and BETWEEN
+                        operand = resolved if resolved is not None else expression.this
+                        if isinstance(operand, (exp.Not, exp.Connector, exp.Between)):
+                            operand_sql = f"({target})"
+                        else:
+                            operand_sql = target
+
+                        this = f"CASE WHEN {operand_sql} IS NULL THEN 1 ELSE 0 END{null_sort_order}, {target}"
                     nulls_sort_change = ""
 
         with_fill = self.sql(expression, "with_fill")
